@@ -17,6 +17,11 @@ class E2(Exception):
     pass
 
 
+class BE(BaseException):
+    """an outcome that is a BaseException but not an Exception (like SystemExit / KeyboardInterrupt / asyncio.CancelledError): a pool
+    stores it in the delegate future like any other exception, and the layers have to hand it on as that same object"""
+
+
 class FalsyError(Exception):
     """An exception object that is falsy (S18)."""
 
@@ -32,7 +37,7 @@ class Falsy(object):
         return "Falsy"
 
 
-EXC = {"E0": E0, "E1": E1, "E2": E2, "FalsyError": FalsyError, "ValueError": ValueError, "KeyError": KeyError}
+EXC = {"E0": E0, "E1": E1, "E2": E2, "BE": BE, "FalsyError": FalsyError, "ValueError": ValueError, "KeyError": KeyError}
 
 
 def S():
